@@ -321,7 +321,8 @@ def SimFilterClass():
                     out = {t: payload(KINDS[(j + seq) % len(KINDS)], spec['name'], w.current.incarnation, seq, t)[0]
                            for j, t in enumerate(spec.get('topics', ['main']))}
                 else:
-                    out = {t: Frame({**prov, 'tp': t}) for t in spec.get('topics', ['main'])}
+                    tps = (spec.get('topics_at') or {}).get(str(seq), (spec.get('topics_at') or {}).get(seq, spec.get('topics', ['main'])))
+                    out = {t: Frame({**prov, 'tp': t}) for t in tps}
                 self._log('process', k=k, mid=None, inp={}, out=_summ(out))
                 self._fault('process', seq)
                 w.activity()
@@ -389,6 +390,13 @@ def SimFilterClass():
                     out[op[1]] = Frame({**(base.data if base is not None else {}), 'tp': op[1], 'added_by': spec['name']})
                 elif o == 'drop':
                     out.pop(op[1], None)
+                elif o == 'add_at':         # ('add_at', topic, [seqs]) - the topic set varies from id to id
+                    if seq in op[2]:
+                        base = next(iter(out.values()), None)
+                        out[op[1]] = Frame({**(base.data if base is not None else {}), 'tp': op[1], 'added_by': spec['name']})
+                elif o == 'drop_at':
+                    if seq in op[2]:
+                        out.pop(op[1], None)
                 elif o == 'empty':
                     ret = {}
                 elif o == 'empty_at':
